@@ -23,6 +23,16 @@
 //	                                        detail per update, canonical code PerUpdate[i] (Code when i is out of
 //	                                        range) - the two branches of p4rtc.go convertError.  Several faults
 //	                                        may be armed; srv.DisarmFaults() removes them.
+//	id := srv.HoldWrites(vp4Hold{Table: "tunnel_peers", Type: "DELETE", Count: 1, MaxMs: 2000})
+//	                                        Write RPCs that contain an update of that table (suffix of the table
+//	                                        name or alias; "" = any table entry) and update type ("" = any) are HELD
+//	                                        before anything of them is applied: the RPC blocks (without the server
+//	                                        lock: other Writes proceed) until srv.ReleaseHolds() / srv.ReleaseHold(id)
+//	                                        or MaxMs elapsed (0 = 5000), then is applied normally.  Count = how many
+//	                                        matching RPCs the hold catches (0 = all until released).
+//	srv.Held() / srv.HeldTotal()            Write RPCs blocked right now / caught by holds so far
+//	srv.WaitHeld(n, ms)                     wait until HeldTotal() >= n (false on time-out)
+//	srv.ReleaseHolds() / srv.ReleaseHold(id)   disarm and let the blocked RPCs go on (Reset() does it too)
 //	srv.Log() / srv.TakeLog()               []vp4WriteRec: every Write RPC decoded (see the record types below);
 //	                                        TakeLog also clears the log
 //	srv.Tables() / srv.Meters() / srv.Counters()   sorted snapshots of all table entries, configured meter cells
@@ -153,6 +163,21 @@ type vp4Fault struct {
 	Msg       string
 }
 
+// vp4Hold describes which Write RPCs are held back (see the API comment at the top).
+type vp4Hold struct {
+	Table string // suffix of the table's name or alias, "" = any table
+	Type  string // INSERT | MODIFY | DELETE, "" = any
+	Count int    // RPCs to catch, 0 = unlimited
+	MaxMs int    // give up holding after this long, 0 = 5000
+}
+
+type vp4HoldState struct {
+	h       vp4Hold
+	caught  int
+	spent   bool // caught Count RPCs: catches no more, stays until released so that the blocked RPCs can be let go
+	release chan struct{}
+}
+
 type vp4Opts struct {
 	P4InfoText string
 	Sizes      map[string]int64
@@ -185,6 +210,10 @@ type vp4Server struct {
 	faults   map[int]vp4Fault
 	pktOuts  [][]byte
 	streams  map[*vp4Stream]struct{}
+	holds    map[int]*vp4HoldState
+	holdSeq  int
+	heldNow  int
+	heldAll  int
 }
 
 // ---------------------------------------------------------------------------------- start / stop
@@ -297,6 +326,11 @@ func (s *vp4Server) SetP4Info(info *p4ConfigV1.P4Info) {
 }
 
 func (s *vp4Server) resetLocked() {
+	for id, st := range s.holds {
+		close(st.release)
+		delete(s.holds, id)
+	}
+
 	s.tables = map[uint32]map[string]*p4.TableEntry{}
 	s.meters = map[vp4CellKey]*p4.MeterConfig{}
 	s.counters = map[vp4CellKey]*p4.CounterData{}
@@ -702,8 +736,135 @@ func vp4DetailError(perUpdate []codes.Code, msg string) error {
 	return stt.Err()
 }
 
+// ---------------------------------------------------------------------------------- holding Writes back
+
+func (s *vp4Server) HoldWrites(h vp4Hold) int {
+	s.mu.Lock()
+	defer s.mu.Unlock()
+
+	if s.holds == nil {
+		s.holds = map[int]*vp4HoldState{}
+	}
+
+	s.holdSeq++
+	s.holds[s.holdSeq] = &vp4HoldState{h: h, release: make(chan struct{})}
+
+	return s.holdSeq
+}
+
+func (s *vp4Server) ReleaseHold(id int) {
+	s.mu.Lock()
+	defer s.mu.Unlock()
+
+	if st, ok := s.holds[id]; ok {
+		close(st.release)
+		delete(s.holds, id)
+	}
+}
+
+func (s *vp4Server) ReleaseHolds() {
+	s.mu.Lock()
+	defer s.mu.Unlock()
+
+	for id, st := range s.holds {
+		close(st.release)
+		delete(s.holds, id)
+	}
+}
+
+func (s *vp4Server) Held() int {
+	s.mu.Lock()
+	defer s.mu.Unlock()
+
+	return s.heldNow
+}
+
+func (s *vp4Server) HeldTotal() int {
+	s.mu.Lock()
+	defer s.mu.Unlock()
+
+	return s.heldAll
+}
+
+func (s *vp4Server) WaitHeld(n int, ms int) bool {
+	deadline := time.Now().Add(time.Duration(ms) * time.Millisecond)
+	for time.Now().Before(deadline) {
+		if s.HeldTotal() >= n {
+			return true
+		}
+
+		time.Sleep(200 * time.Microsecond)
+	}
+
+	return s.HeldTotal() >= n
+}
+
+// holdFor returns the hold (if any) that catches this request; called with s.mu held.
+func (s *vp4Server) holdFor(req *p4.WriteRequest) *vp4HoldState {
+	ids := make([]int, 0, len(s.holds))
+	for id := range s.holds {
+		ids = append(ids, id)
+	}
+
+	sort.Ints(ids)
+
+	for _, id := range ids {
+		st := s.holds[id]
+		if st.spent {
+			continue
+		}
+
+		for _, u := range req.GetUpdates() {
+			te := u.GetEntity().GetTableEntry()
+			if te == nil {
+				continue
+			}
+
+			if st.h.Type != "" && u.GetType().String() != st.h.Type {
+				continue
+			}
+
+			if st.h.Table != "" {
+				t := s.tableByID(te.GetTableId())
+				if t == nil || !(strings.HasSuffix(t.GetPreamble().GetName(), st.h.Table) || strings.HasSuffix(t.GetPreamble().GetAlias(), st.h.Table)) {
+					continue
+				}
+			}
+
+			st.caught++
+			if st.h.Count > 0 && st.caught >= st.h.Count {
+				st.spent = true
+			}
+
+			return st
+		}
+	}
+
+	return nil
+}
+
 func (s *vp4Server) Write(_ context.Context, req *p4.WriteRequest) (*p4.WriteResponse, error) {
 	s.mu.Lock()
+
+	if st := s.holdFor(req); st != nil {
+		s.heldNow++
+		s.heldAll++
+		s.mu.Unlock()
+
+		ms := st.h.MaxMs
+		if ms == 0 {
+			ms = 5000
+		}
+
+		select {
+		case <-st.release:
+		case <-time.After(time.Duration(ms) * time.Millisecond):
+		}
+
+		s.mu.Lock()
+		s.heldNow--
+	}
+
 	defer s.mu.Unlock()
 
 	s.writes++
